@@ -89,7 +89,10 @@ def value_for(pred, rnd):
     if pred == "Interval":
         k = rnd.randrange(6)
         if k == 0:
-            return T.Interval(r_tod(rnd), r_tod(rnd))
+            # a date-less clock range as the rule base builds it (ruleTODTOD): an arbitrary pair of clock times such as
+            # 12:52 - 0:00 is not a value any text produces, and rules that take ranges are only specified on those
+            from .props import common
+            return qa.RULES["ruleTODTOD"][0](None, r_tod(rnd), common.token("ruleTODTOD", "-"), r_tod(rnd))
         if k == 1:
             return T.Interval(None, r_tod(rnd))
         if k == 2:
